@@ -1,12 +1,40 @@
 """C05 — a tripped circuit breaker shields the backend. See py/props/__init__.py for the SPEC format."""
+import re
+import subprocess
+import time
+
+
+def breaker_stress(tier, seed, build_harness, goenv, **_):
+    """Support, not a proof: the window the sequential harness cannot reach — arrivals racing with a completion that trips the
+    breaker again during the recovery (harness/cbstress). A failing round is a concrete schedule-dependent violation."""
+    bins, errs = build_harness(["cbstress"], race=False)
+    cov = {"breaker_stress": {}}
+    if errs or "cbstress" not in bins:
+        return ([{"prop": "C05", "idx": -1, "step": -1, "msg": "cbstress does not build: " + errs[-1500:], "component": None}], cov)
+    rounds = 4000 if tier == "quick" else 60000
+    t0 = time.time()
+    p = subprocess.run([bins["cbstress"], "-rounds", str(rounds), "-racers", "6"], stdout=subprocess.PIPE,
+                       stderr=subprocess.STDOUT, text=True, env=goenv, timeout=1800)
+    fails = re.findall(r"C05-STRESS-FAIL (.*)", p.stdout)
+    m = re.search(r"cbstress: (\d+) rounds, (\d+) reached the race window, (\d+) failures", p.stdout)
+    cov["breaker_stress"] = {"rounds": rounds, "racers": 6, "reached_race_window": int(m.group(2)) if m else 0,
+                             "failures": int(m.group(3)) if m else -1, "wall_s": round(time.time() - t0, 1)}
+    hits = []
+    if p.returncode != 0 or fails or not m:
+        msg = "breaker stress (%d rounds of 6 arrivals racing with a re-trip): %s" % (rounds, (fails[:1] or [p.stdout[-400:]])[0])
+        hits.append({"prop": "C05", "idx": -1, "step": -1, "msg": msg, "component": None,
+                     "schedule": {"rounds": rounds, "racers": 6}, "all_failures": fails[:5]})
+    return hits, cov
+
 
 SPEC = {
     "components": [{"name": "cbreaker", "coq_run": "Model.Breaker.run", "quick": 1000, "thorough": 40000}],
+    "extra": breaker_stress,
     "rule": "histories = seeded random interleavings of Arrive / Complete(any in-flight request, status code) / Tick over the real "
             "cbreaker.CircuitBreaker under the frozen clock; condition expressions drawn from the grammar (&&, ||, six comparisons, "
             "NetworkErrorRatio, ResponseCodeRatio, LatencyAtQuantileMS), fallback in {<0,0,1ms..1h}, recovery in {<0,0,1ms..73min, half dyadic}, "
             "check period in {<0,0,1ms,100ms,1s,12s}; requests stay in flight across trips; one history in four is a stale-latency cycle (latency or latency-and-error-ratio condition, 70-130 s of responses with varied latencies in 7-13 ten-second periods so that the rolling latency histogram has wrapped around, a trip, 1-5 s fallback and recovery, then fast responses at due checks); "
-            "non-trivial = the breaker tripped at least once; distinct = distinct (config, op sequence)",
+            "non-trivial = the breaker tripped at least once; distinct = distinct (config, op sequence); plus (support) harness/cbstress: thousands of rounds of arrivals racing with a completion that re-trips the breaker during the recovery",
     "trusted_base": ["model coq/Model/Breaker.v hand-written from cbreaker/cbreaker.go (activateFallback, checkAndSet, setState, "
                      "setRecovering), ratio.go, predicates.go and memmetrics/roundtrip.go; tie = differential replay of every "
                      "generated history (verdict, state, side-effect counts after every Arrive and Complete); the harness issues "
